@@ -32,12 +32,12 @@ ASSUMPTIONS = [
 
 def run(ctx):
     lib = ctx.lib()
-    check_visitor(ctx, lib)
-    check_serialize(ctx, lib)
-    check_tryfrom(ctx, lib)
-    check_casts(ctx, lib)
-    check_identity(ctx, lib)
-    check_manifest(ctx, lib)
+    ctx.attempt("check_visitor", check_visitor, ctx, lib)
+    ctx.attempt("check_serialize", check_serialize, ctx, lib)
+    ctx.attempt("check_tryfrom", check_tryfrom, ctx, lib)
+    ctx.attempt("check_casts", check_casts, ctx, lib)
+    ctx.attempt("check_identity", check_identity, ctx, lib)
+    ctx.attempt("check_manifest", check_manifest, ctx, lib)
 
 
 def check_visitor(ctx, lib):
